@@ -186,7 +186,8 @@ func (mu *Mutator) resign(m *specqbft.SignedMessage) {
 
 var mutKinds = []string{"type", "height", "round", "root", "signer-swap", "signer-add", "signer-dup", "signer-zero", "signer-foreign",
 	"signer-empty", "sig-flip", "sig-swap", "sig-zero", "fulldata", "fulldata-consistent", "fulldata-empty", "fulldata-bad", "ident-empty",
-	"ident-other", "dataround", "just-drop", "just-dup", "just-swap", "just-garbage", "just-nested", "just-truncate", "just-add", "multisign-quorum"}
+	"ident-other", "dataround", "just-drop", "just-dup", "just-swap", "just-garbage", "just-nested", "just-truncate", "just-add", "multisign-quorum",
+	"just-repeat", "just-repeat", "just-repeat", "just-nested"}
 
 // mutate applies ONE field mutation; `resigned` says whether the outer signature was recomputed by the listed signers.
 func (mu *Mutator) mutate(orig *specqbft.SignedMessage) (enc []byte, kind string, resigned bool) {
@@ -278,6 +279,43 @@ func (mu *Mutator) mutate(orig *specqbft.SignedMessage) (enc []byte, kind string
 	case "dataround":
 		rd := uint64(m.Message.Round)
 		m.Message.DataRound = specqbft.Round([]uint64{0, 1, rd, rd + 1, 1 << 40}[r.Intn(5)])
+	case "just-repeat": // a justification list whose length and number of distinct signers differ; always re-signed
+		var cands []*[][]byte
+		for _, w := range []*[][]byte{&m.Message.RoundChangeJustification, &m.Message.PrepareJustification} {
+			if len(*w) > 1 {
+				cands = append(cands, w)
+			}
+		}
+		if len(cands) == 0 {
+			kind = "just-add"
+			mu.addJust(m)
+			break
+		}
+		which := cands[r.Intn(len(cands))]
+		if len(m.Message.PrepareJustification) > 1 && r.Chance(70) {
+			which = &m.Message.PrepareJustification
+		}
+		var ms []*specqbft.SignedMessage
+		for _, b := range *which {
+			im := &specqbft.SignedMessage{}
+			if err := im.UnmarshalSSZ(b); err != nil {
+				ms = nil
+				break
+			}
+			ms = append(ms, im)
+		}
+		if ms == nil {
+			break
+		}
+		rep, how := repeatMsgs(r, ms, mu.env.q, mu.env.n)
+		*which = marshalJust(rep)
+		kind = "just-repeat:" + how
+		if which == &m.Message.PrepareJustification {
+			kind += ":prepares"
+		} else {
+			kind += ":round-changes"
+		}
+		resigned = true
 	case "just-drop", "just-dup", "just-truncate", "just-garbage", "just-nested", "just-swap":
 		which := &m.Message.RoundChangeJustification
 		if (r.Bool() && len(m.Message.PrepareJustification) > 0) || len(*which) == 0 {
